@@ -41,6 +41,12 @@ func seqProfile(prop string, cas int, tier string) Profile {
 			p.DiskBlocks = []uint64{1800, 2600}[(cas/8)%2]
 			p.W[OpSymlink] *= 3
 		}
+		if cas%16 == 7 {
+			// data beyond block 32768 (second block of the block bitmap)
+			p.HighBlocks = true
+			p.Big = false
+			p.RestartEvery = 20
+		}
 		if tier == "thorough" {
 			p.NOps = 400
 		}
@@ -69,6 +75,13 @@ func seqProfile(prop string, cas int, tier string) Profile {
 		p.FsckEvery = 6
 		p.RestartEvery = 25
 		p.DeleteAll = true
+		if cas%16 == 9 {
+			p.HighBlocks = true
+			p.DiskBlocks = 40000
+		}
+		if cas%8 == 5 {
+			p.ManyBigFrees = true
+		}
 		if cas%4 == 3 {
 			p.NearFull = true
 			p.DiskBlocks = []uint64{1700, 2500}[(cas/4)%2]
@@ -116,6 +129,12 @@ func seqProfile(prop string, cas int, tier string) Profile {
 		p.NearFull = cas%3 == 2
 		if p.NearFull {
 			p.DiskBlocks = 2600
+		}
+		if cas%16 == 7 {
+			p.HighBlocks = true
+			p.NearFull = false
+			p.DiskBlocks = 40000
+			p.ManyObjs = 30
 		}
 	case "C12":
 		p.NOps = 220
@@ -234,8 +253,13 @@ func concCfg(prop string, cas int, tier string) ConcCfg {
 		c.Focus, c.FileFocus, c.HalfFreed = false, false, false
 		c.OpsPer = 6
 	}
+	if cas%8 == 7 {
+		c.Evict = true
+		c.Focus, c.FileFocus, c.HalfFreed, c.DirMoves = false, false, false, false
+		c.Hist = 10
+	}
 	if tier == "thorough" {
-		c.Hist = 50
+		c.Hist *= 2
 	}
 	if prop == "C05" {
 		c.BigFile = true
@@ -292,6 +316,10 @@ func dispatch(job Job) *JobRes {
 		return crashJob(job)
 	case "window":
 		return windowJobRes(runWindow(job.Seed, job.Case, job.Tier))
+	case "dgate":
+		return dgateJobRes(runDGate(job.Seed, job.Case, job.Tier))
+	case "inotable":
+		return runInoTable(job.Seed, job.Case, job.Tier)
 	case "cns":
 		return cnsJobRes(runCNS(job.Seed, job.Case, job.Tier))
 	case "ccrash":
@@ -484,8 +512,18 @@ func propSpecs() map[string]PropSpec {
 		Rule: "build-then-delete sequences; conservation (marked = reachable, allocators = bitmaps, no half-freed inode) at shrinker-idle quiescence every 6 ops, after restarts, and after deleting everything; distinct = distinct on-disk state hashes checked",
 		Plan: withConc(withCrash(seqPlan("C05", 32, 600), "C05", 4, 60), "C05", 24, 300, false)})
 	add(PropSpec{ID: "C08", Level: "exploration", Classes: []string{"handle", "reply", "crash", "lin"},
-		Rule: "inode-reuse-heavy sequences with restarts; every handle bound to one object; a pool of dead handles presented to every procedure and handle position; distinct = distinct (procedure, outcome, argument class) triples incl. deadprobe (procedure, position, reused?) classes",
-		Plan: withWindow(seqPlan("C08", 96, 900), "C08")})
+		Rule: "inode-reuse-heavy sequences with restarts; every handle bound to one object; a pool of dead handles presented to every procedure and handle position; inode-table sweep: every inode number up to the last is handed out (no number twice, none skipped), used through its handle, freed (old handles stale), handed out again after a restart with a different handle; distinct = distinct (procedure, outcome, argument class) triples incl. deadprobe (procedure, position, reused?) classes",
+		Plan: func(tier string, seed uint64) []Job {
+			js := withWindow(seqPlan("C08", 96, 900), "C08")(tier, seed)
+			n := 1
+			if tier == "thorough" {
+				n = 4
+			}
+			for i := 0; i < n; i++ {
+				js = append(js, Job{Engine: "inotable", Profile: "C08", Seed: seed, Case: i})
+			}
+			return js
+		}})
 	add(PropSpec{ID: "C09", Level: "exploration", Classes: []string{"afterfail", "crash"},
 		Rule: "sequences on nearly-full disks of five sizes; after every failing RPC: free block/inode counts unchanged, whole tree = reference (in which the op never happened), fsck + cache/disk coherence; distinct = distinct (procedure, outcome, argument class) triples in sequences where a failing transaction had dirtied state",
 		Plan: seqPlan("C09", 60, 800)})
@@ -522,8 +560,14 @@ func propSpecs() map[string]PropSpec {
 			return js
 		}})
 	add(PropSpec{ID: "C03", Level: "exploration", Classes: []string{"lin", "crash", "hang", "deadlock"},
-		Rule: "short histories (3-4 clients x 4-6 conflicting RPCs on shared names/files/directories, big file freed by the shrinker in the window, cold caches, children numbered below their directories) recorded at the client boundary with one atomic clock and checked by porcupine against the reference model, the final tree included as a read; schedules widened by seeded yields at lock/commit hooks and disk calls, GOMAXPROCS 2/4/16; distinct = distinct fingerprints of the global (hook site, client, inode) event sequence, counted only if some history had a contended acquire or an abort-and-relock",
-		Plan: withWindow(withConc(noJobs, "C03", 120, 1200, false), "C03")})
+		Rule: "short histories (3-4 clients x 4-6 conflicting RPCs on shared names/files/directories, big file freed by the shrinker in the window, cold caches, children numbered below their directories) recorded at the client boundary with one atomic clock and checked by porcupine against the reference model, the final tree included as a read; schedules widened by seeded yields at lock/commit hooks and disk calls, GOMAXPROCS 2/4/16; directed interleavings: one request parked at its n-th transaction abort (window) or inside its n-th disk read while it holds its locks and cache slots (disk gate), other requests started against it, a sweep over more inodes than the inode cache holds, everything looked at again afterwards; distinct = distinct fingerprints of the global (hook site, client, inode) event sequence, counted only if some history had a contended acquire or an abort-and-relock",
+		Plan: func(tier string, seed uint64) []Job {
+			js := withWindow(withConc(noJobs, "C03", 120, 1200, false), "C03")(tier, seed)
+			for i := 0; i < 6; i++ {
+				js = append(js, Job{Engine: "dgate", Profile: "C03", Seed: seed, Case: i})
+			}
+			return js
+		}})
 	add(PropSpec{ID: "C06", Level: "exploration", Classes: []string{"deadlock", "hang", "crash"},
 		Rule: "every inode-lock request is observed with the locks its transaction holds: (a) single-threaded census over every parent/child pair of trees whose children are numbered both below and above their directories (LOOKUP incl. '.'/'..', READDIR/READDIRPLUS, CREATE/REMOVE, RENAME within/across directories, over existing targets, coinciding inodes, aliased and dead handles; warm and cold caches), (b) concurrent stress with the wait-for detector armed and seeded yields; violations: self-wait, wait-for cycle (both detected before blocking), cycle in the accumulated lock-order graph, transaction abandoned with locks held, > 1000 begin/abort cycles without any commit, wedged server; distinct = distinct (call site, ascending/descending) edge classes and distinct interleaving fingerprints",
 		Plan: func(tier string, seed uint64) []Job {
